@@ -220,6 +220,17 @@ def pairs(results):
     return sorted((vid(r.estimated_object), vid(r.ground_truth_object) if r.ground_truth_object is not None else 0) for r in results)
 
 
+def _deprecated(obj, name):
+    """value of a deprecated accessor that is still shipped (a second implementation of the same count), None when it is gone"""
+    import warnings as _w
+
+    if not hasattr(obj, name):
+        return None
+    with _w.catch_warnings():
+        _w.simplefilter("ignore")
+        return getattr(obj, name)()
+
+
 def project_frame_result(fr):
     from ..build import vid
 
@@ -253,6 +264,7 @@ def project_frame_result(fr):
         tn=sorted(vid(o) for o in pf.tn_objects),
         nsucc=pf.get_num_success(),
         nfail=pf.get_num_fail(),
+        dep_nfail=_deprecated(pf, "get_fail_object_num"),
         aps=aps,
         aphs=aphs,
         maps=[("inf" if m.map == float("inf") else m.map) for m in fr.metrics_score.maps],
@@ -295,6 +307,8 @@ def compare(impl, spec):
             diff.append(k)
     if impl["nsucc"] != len(spec["tp"]) + len(spec["tn"]) or impl["nfail"] != len(spec["fp"]) + len(spec["fn"]):
         diff.append("num_success_fail")
+    if impl.get("dep_nfail") is not None and impl["dep_nfail"] != len(spec["fp"]) + len(spec["fn"]):
+        diff.append("deprecated_get_fail_object_num")
     if not impl.get("has_fp_gt", True):
         if [tuple(x) for x in impl["dep_tp"]] != list(spec["tp"]):
             diff.append("deprecated_divide_tp_fp")
